@@ -111,6 +111,30 @@ func FuncUniverse(level int) (*Schema, *Helpers, []*StructDef) {
 		fn("read", ang(VecBoxed(ang(Tup(TInt, FieldN(0))))), F("n", TNat))
 		fn("read", ang(bx(Dict(ang(Maybe(URef(h.Un)))))), F("x", TInt))
 	}
+	// --- appended later (explicit names and tags, so that the numbered functions above keep their names at every level):
+	// tuples of a PARAMETRISED element sized by a DIFFERENT request nat field (Tuple (u.om m) n): the unwrapped wrapper
+	// types must permute their nat arguments; both request orders; under Maybe; inside result structs, one and two levels down
+	xtag := uint32(0x30001001)
+	fx := func(name string, result *Type, fields ...Field) {
+		d := &StructDef{Name: "u." + name, Tag: xtag, Fields: fields, IsFunc: true, Result: result, Annot: []string{"read"}}
+		xtag++
+		funcs = append(funcs, d)
+	}
+	tom := &StructDef{Name: "u.tom", TypeName: "u.Tom", Tag: 0x30002001, NatParams: []string{"n", "m"},
+		Fields: []Field{F("a", Tup(Ref(h.Om, OuterN(1)), OuterN(0)))}}
+	grid := &StructDef{Name: "u.grid", TypeName: "u.Grid", Tag: 0x30002002, NatParams: []string{"w", "h", "m"},
+		Fields: []Field{F("cells", Tup(Tup(RefBoxed(h.Om, OuterN(2)), OuterN(0)), OuterN(1)))}}
+	s.Structs = append(s.Structs, tom, grid)
+	omTup := func(nIdx, mIdx int) *Type { return bx(Tup(Ref(h.Om, FieldN(mIdx)), FieldN(nIdx))) } // Tuple (u.om m) n
+	fx("fx1", omTup(0, 1), F("n", TNat), F("m", TNat))
+	fx("fx2", omTup(1, 0), F("m", TNat), F("n", TNat))
+	fx("fx3", Maybe(omTup(0, 1)), F("n", TNat), F("m", TNat))
+	fx("fx4", Maybe(omTup(1, 0)), F("m", TNat), F("n", TNat))
+	fx("fx5", RefBoxed(tom, FieldN(0), FieldN(1)), F("n", TNat), F("m", TNat))
+	fx("fx6", RefBoxed(tom, FieldN(1), FieldN(0)), F("m", TNat), F("n", TNat))
+	fx("fx7", RefBoxed(grid, FieldN(0), FieldN(1), FieldN(2)), F("w", TNat), F("h", TNat), F("m", TNat))
+	fx("fx8", RefBoxed(grid, FieldN(2), FieldN(1), FieldN(0)), F("m", TNat), F("h", TNat), F("w", TNat))
+	fx("fx9", bx(Tup(Ref(h.Ar, FieldN(1)), FieldN(0))), F("n", TNat), F("k", TNat)) // Tuple (u.ar k) n: two sizes
 	s.Structs = append(s.Structs, funcs...)
 	s.Tops = append(s.Tops, funcs...)
 	return s, h, funcs
